@@ -18,12 +18,12 @@ TECHNIQUE = ("Lean 4 theorems over an executable transcription of share_placemen
              "returned plan compared with the model and checked against the state; one real Tahoe2ServerSelector run per seed on "
              "the in-process grid with a server failing allocate_buckets; monitor = the three clauses of the statement with a "
              "brute-force / matching optimum")
-LEVEL_TEXT = ("over the model of the repaired code (fixes/C07-indexedshares.diff + fixes/C07-dropped-peer.diff): placement_total, "
-              "placement_returns and readonly_only_existing proved in Lean for all inputs; spread_maximal proved per phase only "
-              "(each _calculate_mappings phase ends with a maximum matching of its network, via the C08 theory) - the "
-              "three-phase composition to the global optimum is checked by the monitor, not proved; the model of the "
-              "repository's code carries machine-checked counterexamples for both defects; the model is tied to the code by "
-              "exact comparison on exhaustive small scopes")
+LEVEL_TEXT = ("over the model of the repaired code (now the repository's code): placement_total, placement_returns, "
+              "readonly_only_existing and spread_maximal (no placement respecting the read-only clause uses more distinct servers; "
+              "three-phase composition proved via the C08 maximum-matching theory) proved in Lean for all inputs; PeerSelector as a "
+              "state machine with plan_is_fresh; the model of the code before the repairs carries machine-checked counterexamples; "
+              "the consumer loop Tahoe2ServerSelector.get_shareholders is monitored on the in-process grid, not modelled; the model "
+              "is tied to the code by exact comparison on exhaustive small scopes and selector histories")
 LEVEL_NOTE = ("Lean kernel + standard axioms; model hand-written, tied by correspondence on ids < 8 where CPython's set order is "
               "ascending; larger layouts and byte-string ids are checked at property level only")
 RULE = ("a case is one call of share_placement (or one observed internal helper call, or one direct helper call) on a generated "
@@ -305,6 +305,8 @@ def run_direct(ctx):
 
     descr, impl_outs, lines = [], [], []
     h_descr, h_impl, h_lines = [], [], []
+    spec_descr, spec_ref, spec_lines = [], [], []
+    spec_budget = ctx.budget(4000, 40000)
     observe_budget = ctx.budget(8000, 60000)
     with Observer() as obs:
         for i, (W, R, S, ex) in enumerate(layouts):
@@ -320,6 +322,15 @@ def run_direct(ctx):
                     ctx.violation(text, dict(case, placement=sorted(res.items())), sig)
                     ctx.count("clause-fails:" + sig)
                 impl_outs.append(enc_placement(res))
+                if len(spec_lines) < spec_budget:
+                    # the Lean-side specification functions (distinctServers, Holds) against their Python meaning
+                    spec_lines.append("spread " + enc_placement(res)); spec_ref.append(str(len(set(res.values()))))
+                    spec_descr.append({"fn": "distinctServers (Lean spec)", "placement": sorted(res.items())})
+                    if ex:
+                        hp = rng.choice(sorted(set(W) | set(R))); hs = rng.choice(S)
+                        spec_lines.append("holds %s %d %d" % (enc_setmap([(k, sorted(v)) for k, v in ex]), hp, hs))
+                        spec_ref.append("T" if hs in exd.get(hp, ()) else "F")
+                        spec_descr.append({"fn": "Holds (Lean spec)", "existing": [[k, sorted(v)] for k, v in ex], "peer": hp, "share": hs})
                 ctx.count("placement:distinct-servers=%d" % min(9, len(set(res.values()))))
             descr.append(case)
             lines.append(place_line(W, R, S, ex))
@@ -350,6 +361,9 @@ def run_direct(ctx):
         ctx.count("impl-equals-as-is-model", asis_agree)
         ctx.count("impl-equals-repaired-model", sum(1 for f, a in zip(fixed, impl_outs) if f == a))
         ctx.compare("share_placement returned mapping (dict order) vs model of the repaired code", descr, impl_outs, fixed)
+    ctx.compare("Lean specification functions distinctServers / Holds vs their Python meaning", spec_descr, spec_ref,
+                ctx.model(spec_lines))
+    ctx.count("spec:distinctServers/Holds", len(spec_lines))
     ctx.compare("internal helper calls observed inside share_placement vs model of the repaired code",
                 h_descr, h_impl, ctx.model(h_lines))
     ctx.sample({"line": lines[min(3, len(lines) - 1)], "impl": impl_outs[min(3, len(lines) - 1)]})
